@@ -1,55 +1,19 @@
 """C01 - compiled clauses compute exactly Prolog's answers, in order."""
-from .. import common, gen, scen, src as S
-from ..frame import Check
-from ..common import Sym
-
+from .. import gen, progcheck
 PROP = 'C01'
 
 
-def make_case(rnd):
-    k = gen.Knobs(cut=False, ctrl=False, eq=True, recursive=0.35)
-    g = gen.ProgGen(rnd, k)
-    prog = g.program()
-    ops = [('load', 'overwrite', prog)]
-    for name, args in g.queries(3):
-        ops.append(('query', name, ('all',), args))
-    return ops, g
+def knobs(rnd):
+    return gen.Knobs(cut=False, ctrl=False, eq=True, recursive=0.35, nonground_facts=0.25, n_rules=(1, 4))
 
 
 def run(tier):
-    n = 250 if tier == 'quick' else 6000
-    with Check(PROP, tier) as chk:
-        rep = chk.rep
-        rnd = common.rng_for(PROP)
-        for i in range(n):
-            ops, g = make_case(rnd)
-            v = scen.three_way(rep, chk.drv, ops, 'case %d' % i)
-            rep.count('programs')
-            rep.count('clauses', len(ops[0][2]))
-            if g.recursive:
-                rep.count('with-recursion')
-            if v == 'ok':
-                res = chk.drv.ask(scen.R.scenario_model(ops, 'reference'))[1:]
-                for op, r in zip(ops, res):
-                    if op[0] == 'query':
-                        na = scen.count_answers(r)
-                        rep.count('answers=%s' % (na if na < 3 else '3+'))
-                        if na >= 1:
-                            rep.nontriv(scen.norm([op[1], op[3], r[1]]))
-            if i < 3:
-                rep.sample({'prolog': S.program_text(ops[0][2]), 'queries': [scen.norm([o[1]] + list(o[3])) for o in ops[1:]]})
-            if v == 'property' and len(rep.violations) >= 3:
-                break
-        chk.finish(rule='stratified random programs (facts, rules over calls, =, \\=, true, fail; repeated/nested head '
-                        'variables, lists, list pairs, optional append/member/len) x 3-4 queries with unbound, shared, '
-                        'partial and ground arguments; a case is non-trivial when the reference yields >= 1 answer; '
-                        'distinct = distinct (query, answer list)')
+    progcheck.run(PROP, tier, knobs, 1200, 40000,
+                  rule='stratified random programs (facts incl. non-ground and non-linear ones, rules over calls, =, \\=, true, fail; '
+                       'repeated/nested head variables, lists, list pairs, variable-variable aliasing, optional append/member/len) '
+                       'x 3-4 queries with unbound, shared, partial and ground arguments; three-way: real engine = model of the '
+                       'compiled code = reference semantics; a case is non-trivial when the reference yields >= 1 answer; '
+                       'distinct = distinct (program, query)')
 
 
-def replay(payload):
-    from .. import real as R
-    ops = scen.ops_from_json(payload['ops'])
-    print('real     :', [scen.norm(x) for x in R.run_scenario(ops)])
-    d = common.Driver()
-    print('reference:', common.sx(d.ask(R.scenario_model(ops, 'reference'))))
-    print('compiled :', common.sx(d.ask(R.scenario_model(ops, 'compiled'))))
+replay = progcheck.replay
